@@ -28,9 +28,9 @@ func appendPaddedUvarint(b []byte, v uint64, width int) []byte {
 }
 
 const (
-	wtVarint = 0
+	wtVarint  = 0
 	wtFixed64 = 1
-	wtLen    = 2
+	wtLen     = 2
 )
 
 func appendTag(b []byte, field, wt int) []byte { return appendUvarint(b, uint64(field)<<3|uint64(wt)) }
